@@ -422,9 +422,9 @@ def int_to_text(v, spec):
     for k in range(ndig - 1, -1, -1):
         d = (v.t / (base**k)) % base
         if base == 10:
-            out.append(z3.simplify(d + 48))
+            out.append(V.note_bounds(z3.simplify(d + 48), 48, 57))
         else:
-            out.append(z3.simplify(z3.If(d < 10, d + 48, d + (55 if upper else 87))))
+            out.append(V.note_bounds(z3.simplify(z3.If(d < 10, d + 48, d + (55 if upper else 87))), 48, 70 if upper else 102))
     width = ndig + (1 if neg else 0)
     lead = [45] if neg else []
     zeros = [48] * max(0, pad - width)
